@@ -921,6 +921,9 @@ pub fn exec(case: &PCase, sample_closed: bool) -> Trace {
 /// like `exec`; with triggers the final subscriber feeds hot input 0 from inside its `next` callback (see `Probe::fb`)
 pub fn exec_fb(case: &PCase, sample_closed: bool, fb: &[i64]) -> Trace {
   use crate::vtime;
+  if std::env::var("RXV_TRACE_CASE").is_ok() {
+    eprintln!("case: {:?} kinds {:?} mode {:?} script({}) {:?}", case.node, case.kinds, case.mode, case.script.len(), case.script);
+  }
   vtime::reset(conv_mode(case.mode));
   crate::stamp::set(crate::stamp::AT_SUBSCRIBE);
   crate::stamp::evseq_reset();
